@@ -63,6 +63,7 @@ type Link struct {
 	stalled  bool
 	aborted  bool
 	nWritten int
+	nAttempts int
 	nRead    int
 	Tap      []TapEv
 
@@ -148,6 +149,9 @@ func (l *Link) Pending() int {
 // Written returns the number of envelopes accepted so far.
 func (l *Link) Written() int { l.mu.Lock(); defer l.mu.Unlock(); return l.nWritten }
 
+// Attempts returns the number of Write calls made on the link so far (including failed ones).
+func (l *Link) Attempts() int { l.mu.Lock(); defer l.mu.Unlock(); return l.nAttempts }
+
 // ReadCount returns the number of envelopes handed to readers so far.
 func (l *Link) ReadCount() int { l.mu.Lock(); defer l.mu.Unlock(); return l.nRead }
 
@@ -194,6 +198,16 @@ func (l *Link) FailWrite(err error) {
 		}
 	}
 	l.inflight = nil
+	// a rendezvous writer whose envelope sits unread in the peer's receive
+	// buffer is still blocked in Write: a broken connection ends that Write too
+	for _, pw := range l.arrived {
+		select {
+		case <-pw.done:
+		default:
+			pw.err = err
+			close(pw.done)
+		}
+	}
 	ws := l.spaceW
 	l.spaceW = nil
 	l.mu.Unlock()
@@ -254,7 +268,11 @@ func (l *Link) read(ctx context.Context) (*Rpc, error) {
 			l.spaceW = nil
 			hooks := l.onRead
 			l.mu.Unlock()
-			close(pw.done)
+			select {
+			case <-pw.done:
+			default:
+				close(pw.done)
+			}
 			for _, w := range ws {
 				close(w)
 			}
@@ -290,6 +308,9 @@ func cloneRpc(r *Rpc) *Rpc {
 }
 
 func (l *Link) write(ctx context.Context, rpc *Rpc) error {
+	l.mu.Lock()
+	l.nAttempts++
+	l.mu.Unlock()
 	for {
 		l.mu.Lock()
 		if l.writeErr != nil {
